@@ -193,7 +193,7 @@ Proof. intros f p H. split; [exact (plan_opts f p H)|exact (features_table f p H
 Print Assumptions c20_features_table.
 
 (* --dump: the sequence of stream lookups and printer calls of print_minidump_dump, regenerated from
-   main.rs on every run, is the pinned one (43 steps) — and, checked by the translator, the one the
+   main.rs on every run, is the pinned one (44 steps, incl. the lazy choice of the unified memory list) — and, checked by the translator, the one the
    harness replays in-process *)
 Theorem c20_dump_sequence_pinned : RM.Gen.C20DumpSeq.DUMP_SEQ = RM.C20.DumpSeq.pinned_dump_seq.
 Proof. exact RM.C20.DumpSeq.dump_seq_pinned. Qed.
